@@ -7,48 +7,37 @@ Import ListNotations.
 Open Scope Z_scope.
 
 (* ------------------------------------------------------------------------------------- *)
-(* _RepeatedMetricChange: the counter equals the streak of the history, PROVIDED the
-   callback has been evaluated exactly once after every append since the history was empty *)
+(* _RepeatedMetricChange (repaired): so_far is computed from the history itself, so the value
+   of condition() is a function of the history alone -- whenever the callback was created,
+   however often and at which epochs it was evaluated before. *)
 
 Section Repeated.
   Context {V : Type}.
-  Variable rel : V -> V -> bool.
 
-  Lemma so_far_step_streak : forall h x,
-    so_far_step rel (Z.of_nat (streak rel h)) (x :: h) = Z.of_nat (streak rel (x :: h)).
+  Lemma streak_cap_min : forall (rel : V -> V -> bool) cap h, streak_cap rel cap h = Nat.min cap (streak rel h).
   Proof.
-    intros h x. destruct h as [|b t]; [reflexivity|].
-    cbn [so_far_step]. change (streak rel (x :: b :: t)) with (if rel x b then S (streak rel (b :: t)) else O).
-    destruct (rel x b); [|reflexivity]. rewrite Nat2Z.inj_succ. lia.
+    intros rel. induction cap as [|c IH]; intros h; [reflexivity|].
+    destruct h as [|a t]; [reflexivity|]. destruct t as [|b t']; [reflexivity|].
+    change (streak_cap rel (S c) (a :: b :: t')) with (if rel a b then S (streak_cap rel c (b :: t')) else O).
+    change (streak rel (a :: b :: t')) with (if rel a b then S (streak rel (b :: t')) else O).
+    destruct (rel a b); [|reflexivity]. rewrite IH, <- Nat.succ_min_distr. reflexivity.
   Qed.
 
-  Lemma run_counter_streak : forall xs h0,
-    run_counter rel (Z.of_nat (streak rel h0)) h0 xs = Z.of_nat (streak rel (rev xs ++ h0)).
+  Lemma streak1_cap_min : forall (f : V -> bool) cap h, streak1_cap f cap h = Nat.min cap (streak1 f h).
   Proof.
-    induction xs as [|x r IH]; intros h0; [reflexivity|].
-    cbn [run_counter rev]. rewrite so_far_step_streak, IH, <- app_assoc. reflexivity.
-  Qed.
-
-  Lemma rep_trace_streak : forall n xs h0,
-    rep_trace rel n (Z.of_nat (streak rel h0)) h0 xs =
-    map (fun t => n <=? Z.of_nat (streak rel (rev (firstn (S t) xs) ++ h0))) (seq 0 (length xs)).
-  Proof.
-    intros n. induction xs as [|x r IH]; intros h0; [reflexivity|].
-    cbn [rep_trace length]. rewrite so_far_step_streak.
-    change (seq 0 (S (length r))) with (O :: seq 1 (length r)).
-    rewrite <- seq_shift, map_cons, map_map. f_equal.
-    rewrite IH. apply map_ext. intros t.
-    change (firstn (S (S t)) (x :: r)) with (x :: firstn (S t) r).
-    change (rev (x :: firstn (S t) r)) with (rev (firstn (S t) r) ++ [x]).
-    rewrite <- app_assoc. reflexivity.
+    intros f. induction cap as [|c IH]; intros h; [reflexivity|].
+    destruct h as [|a t]; [reflexivity|].
+    change (streak1_cap f (S c) (a :: t)) with (if f a then S (streak1_cap f c t) else O).
+    change (streak1 f (a :: t)) with (if f a then S (streak1 f t) else O).
+    destruct (f a); [|reflexivity]. rewrite IH, <- Nat.succ_min_distr. reflexivity.
   Qed.
 
   (* what `streak >= n` says about the history, element by element *)
-  Lemma streak_spec : forall (d : V) h n,
+  Lemma streak_spec : forall (rel : V -> V -> bool) (d : V) h n,
     (n <= streak rel h)%nat <->
     (forall i, (i < n)%nat -> (S i < length h)%nat /\ rel (nth i h d) (nth (S i) h d) = true).
   Proof.
-    intros d. induction h as [|a t IH]; intros n.
+    intros rel d. induction h as [|a t IH]; intros n.
     - cbn [streak length]. split.
       + intros H i Hi. lia.
       + intros H. destruct n as [|n]; [lia|]. destruct (H O) as [H1 _]; [lia|]. cbn [length] in H1. lia.
@@ -75,86 +64,91 @@ Section Repeated.
              cbn [nth] in H2. congruence.
   Qed.
 
-  (* The theorem: evaluated once per epoch from the first epoch on (history empty when the
-     callback was created, counter 0), after the (t+1)-th epoch the callback fires iff the
-     latest n consecutive pairs of the history satisfy the relation. *)
-  Theorem repeated_spec : forall (d : V) (n : Z) (xs : list V) (t : nat),
-    (t < length xs)%nat ->
-    let h := rev (firstn (S t) xs) in
-    nth t (rep_trace rel n 0 [] xs) false = true <->
-    (forall i : nat, Z.of_nat i < n -> (S i < length h)%nat /\ rel (nth i h d) (nth (S i) h d) = true).
+  Lemma streak1_spec : forall (f : V -> bool) (d : V) h n,
+    (n <= streak1 f h)%nat <-> (forall i, (i < n)%nat -> (i < length h)%nat /\ f (nth i h d) = true).
   Proof.
-    intros d n xs t Ht h.
-    change 0 with (Z.of_nat (streak rel (@nil V))). rewrite rep_trace_streak.
-    match goal with |- context [map ?g (seq 0 (length xs))] => set (f := g) end.
-    rewrite (nth_indep (map f (seq 0 (length xs))) false (f O))
-      by (rewrite map_length, seq_length; exact Ht).
-    rewrite map_nth, seq_nth by exact Ht. subst f. cbn beta. cbn [plus]. rewrite app_nil_r. fold h.
-    rewrite Z.leb_le. split.
-    - intros H i Hi. apply (proj1 (streak_spec d h (Z.to_nat n))); lia.
-    - intros H. assert (Hs : (Z.to_nat n <= streak rel h)%nat).
-      { apply (streak_spec d). intros i Hi. apply H. lia. }
-      lia.
-  Qed.
-
-  (* the final counter, same hypothesis *)
-  Corollary counter_is_streak : forall xs, run_counter rel 0 [] xs = Z.of_nat (streak rel (rev xs)).
-  Proof.
-    intros xs. change 0 with (Z.of_nat (streak rel (@nil V))). rewrite run_counter_streak, app_nil_r. reflexivity.
+    intros f d. induction h as [|a t IH]; intros n.
+    - cbn [streak1 length]. split.
+      + intros H i Hi. lia.
+      + intros H. destruct n as [|n]; [lia|]. destruct (H O) as [H1 _]; lia.
+    - cbn [streak1]. destruct (f a) eqn:Ea.
+      + split.
+        * intros H i Hi. destruct i as [|i].
+          -- split; [cbn [length]; lia|exact Ea].
+          -- assert (Hn : (Nat.pred n <= streak1 f t)%nat) by lia.
+             destruct (proj1 (IH (Nat.pred n)) Hn i) as [H1 H2]; [lia|].
+             split; [cbn [length]; lia|exact H2].
+        * intros H. destruct n as [|n]; [lia|].
+          assert (Hn : (n <= streak1 f t)%nat).
+          { apply IH. intros i Hi. destruct (H (S i)) as [H1 H2]; [lia|].
+            split; [cbn [length] in H1; lia|exact H2]. }
+          lia.
+      + split.
+        * intros H i Hi. lia.
+        * intros H. destruct n as [|n]; [lia|]. destruct (H O) as [_ H2]; [lia|].
+          cbn [nth] in H2. congruence.
   Qed.
 End Repeated.
 
-(* RepeatedMetricBelow / Above: the relation ignores the second-to-last value but the code
-   still demands two history entries, so what they compute is the streak of VALUES capped at
-   length - 1 (the oldest entry of the history is never counted). *)
-Lemma below_above_actual : forall {V : Type} (f : V -> bool) (h : list V),
-  streak (fun last _ => f last) h = Nat.min (streak1 f h) (Nat.pred (length h)).
+Lemma streak_cap_spec : forall {V : Type} (rel : V -> V -> bool) (d : V) (cap n : nat) (h : list V),
+  (n <= cap)%nat ->
+  ((n <= streak_cap rel cap h)%nat <->
+   (forall i, (i < n)%nat -> (S i < length h)%nat /\ rel (nth i h d) (nth (S i) h d) = true)).
 Proof.
-  intros V f. induction h as [|a t IH]; [reflexivity|].
-  destruct t as [|b t'].
-  - cbn [streak streak1 length Nat.pred]. destruct (f a); reflexivity.
-  - change (streak (fun last _ => f last) (a :: b :: t'))
-      with (if f a then S (streak (fun last _ => f last) (b :: t')) else O).
-    change (streak1 f (a :: b :: t')) with (if f a then S (streak1 f (b :: t')) else O).
-    destruct (f a); [|reflexivity]. rewrite IH.
-    change (Nat.pred (length (a :: b :: t'))) with (S (length t')).
-    change (Nat.pred (length (b :: t'))) with (length t').
-    rewrite <- Nat.succ_min_distr. reflexivity.
+  intros V rel d cap n h Hn. rewrite streak_cap_min, <- (streak_spec rel d h n).
+  split; intros H; [apply Nat.min_glb_r in H; exact H|apply Nat.min_glb; assumption].
 Qed.
 
-(* growing histories, as fit() produces them: one append per epoch *)
-Fixpoint growing {V : Type} (h0 : list V) (xs : list V) : list (list V) :=
-  match xs with
-  | [] => []
-  | x :: r => (x :: h0) :: growing (x :: h0) r
-  end.
-
-(* the AST leaf run on a sequence of solver views is rep_trace on the histories seen *)
-Lemma run_pred_repeated : forall k tr n xs h0 s vs,
-  map (hist_of tr) vs = growing h0 xs ->
-  fst (run_pred (PRepeated k tr n s) vs) = rep_trace (rel_of k) n s h0 xs.
+(* the cached so_far decides exactly like the documented count *)
+Lemma leaf_fires : forall k n h, (n <=? leaf_count k n h) = (n <=? Z.of_nat (doc_count k h)).
 Proof.
-  intros k tr n. induction xs as [|x r IH]; intros h0 s vs E.
-  - destruct vs; [reflexivity|discriminate E].
-  - destruct vs as [|v vr]; [discriminate E|]. cbn [map growing] in E. injection E as E1 E2.
-    cbn [run_pred step rep_trace]. rewrite E1.
-    specialize (IH (x :: h0) (so_far_step (rel_of k) s (x :: h0)) vr E2).
-    destruct (run_pred _ vr) as [bs p'']. cbn [fst] in *. rewrite IH. reflexivity.
+  intros k n h. unfold leaf_count, doc_count. destruct (pairwise_of k).
+  - rewrite streak_cap_min. destruct (Z.leb_spec n (Z.of_nat (streak (rel_of k) h))) as [H|H].
+    + apply Z.leb_le. lia.
+    + apply Z.leb_gt. lia.
+  - rewrite streak1_cap_min. destruct (Z.leb_spec n (Z.of_nat (streak1 (val_of k) h))) as [H|H].
+    + apply Z.leb_le. lia.
+    + apply Z.leb_gt. lia.
 Qed.
 
-Theorem repeated_callback_spec : forall k tr n xs vs t,
-  map (hist_of tr) vs = growing [] xs -> (t < length xs)%nat ->
-  let h := rev (firstn (S t) xs) in
-  nth t (fst (run_pred (repeated k tr n) vs)) false = true <->
+(* repeated_spec, FULL strength: for every history, every cached state, whenever evaluated *)
+Theorem repeated_spec : forall k tr n s v,
+  pairwise_of k = true ->
+  let h := hist_of tr v in
+  cond v (PRepeated k tr n s) = true <->
   (forall i : nat, Z.of_nat i < n -> (S i < length h)%nat /\ rel_of k (nth i h 0) (nth (S i) h 0) = true).
 Proof.
-  intros k tr n xs vs t E Ht. unfold repeated. rewrite (run_pred_repeated k tr n xs [] 0 vs E).
-  apply repeated_spec. exact Ht.
+  intros k tr n s v Hp h. unfold cond. cbn [step fst]. fold h. rewrite leaf_fires.
+  unfold doc_count. rewrite Hp, Z.leb_le. split.
+  - intros H i Hi. apply (proj1 (streak_spec (rel_of k) 0 h (Z.to_nat n))); lia.
+  - intros H. assert (Hs : (Z.to_nat n <= streak (rel_of k) h)%nat).
+    { apply (streak_spec (rel_of k) 0). intros i Hi. apply H. lia. }
+    lia.
 Qed.
 
+(* RepeatedMetricBelow / Above: the documented "on the required side for the latest n epochs" *)
+Theorem below_above_spec : forall k tr n s v,
+  pairwise_of k = false ->
+  let h := hist_of tr v in
+  cond v (PRepeated k tr n s) = true <->
+  (forall i : nat, Z.of_nat i < n -> (i < length h)%nat /\ val_of k (nth i h 0) = true).
+Proof.
+  intros k tr n s v Hp h. unfold cond. cbn [step fst]. fold h. rewrite leaf_fires.
+  unfold doc_count. rewrite Hp, Z.leb_le. split.
+  - intros H i Hi. apply (proj1 (streak1_spec (val_of k) 0 h (Z.to_nat n))); lia.
+  - intros H. assert (Hs : (Z.to_nat n <= streak1 (val_of k) h)%nat).
+    { apply (streak1_spec (val_of k) 0). intros i Hi. apply H. lia. }
+    lia.
+Qed.
+
+Lemma val_of_spec : forall t x, val_of (RBelow t) x = (x <? t) /\ val_of (RAbove t) x = (t <? x).
+Proof. intros t x. split; reflexivity. Qed.
+
 Example repeated_nonvacuous :
-  rep_trace (rel_of (RUp 0)) 2 0 [] [1; 2; 3; 0; 1; 2; 3] = [false; false; true; false; false; true; true].
-Proof. reflexivity. Qed.
+  fst (run_pred (repeated (RUp 0) true 2)
+         [mkView 1 1 2 [3; 2; 1] []; mkView 2 2 2 [0; 3; 2; 1] []; mkView 1 3 1 [2; 1; 0; 3; 2; 1] []]) = [true; false; true]
+  /\ cond (mkView 1 1 1 [0] []) (repeated (RBelow 1) true 1) = true.
+Proof. split; reflexivity. Qed.
 
 (* ------------------------------------------------------------------------------------- *)
 (* SetLossFn / SetOptimizer: effect at the first firing only; at every firing with reset  *)
@@ -187,55 +181,50 @@ Example set_once_nonvacuous :
 Proof. split; reflexivity. Qed.
 
 (* ------------------------------------------------------------------------------------- *)
-(* SetOptimizer(<class>): the list handed to the optimiser                                *)
+(* SetOptimizer(<class>): the list handed to the optimiser (OrderedSet of the chained parameters) *)
 
-Lemma opt_params_complete : forall {P : Type} (nets : list (list P)) (p : P),
-  In p (opt_params nets) <-> exists net, In net nets /\ In p net.
+Lemma dedup_spec : forall {P : Type} (dec : forall x y : P, {x = y} + {x <> y}) (l seen : list P),
+  NoDup (dedup dec seen l) /\ (forall p, In p (dedup dec seen l) <-> In p l /\ ~ In p seen).
 Proof.
-  intros P nets p. unfold opt_params. rewrite in_concat. split; intros [net [H1 H2]]; exists net; tauto.
+  intros P dec. induction l as [|x r IH]; intros seen.
+  - split; [constructor|]. intros p. cbn [dedup In]. tauto.
+  - cbn [dedup]. destruct (in_dec dec x seen) as [Hin|Hnin].
+    + destruct (IH seen) as [N I]. split; [exact N|]. intros p. rewrite I. cbn [In]. split.
+      * intros [H1 H2]. split; [right; exact H1|exact H2].
+      * intros [[H1|H1] H2]; [subst; contradiction|split; assumption].
+    + destruct (IH (x :: seen)) as [N I]. split.
+      * constructor; [|exact N]. rewrite I. cbn [In]. tauto.
+      * intros p. cbn [In]. rewrite I. cbn [In]. split.
+        -- intros [H|[H1 H2]]; [subst; split; [left; reflexivity|exact Hnin]|].
+           split; [right; exact H1|tauto].
+        -- intros [[H1|H1] H2]; [left; exact H1|].
+           destruct (dec x p) as [E|E]; [left; exact E|right; split; [exact H1|tauto]].
 Qed.
 
-(* how often a parameter is handed over (= how often torch steps it per optimiser step) *)
-Lemma opt_params_count : forall {P : Type} (dec : forall x y : P, {x = y} + {x <> y}) (nets : list (list P)) (p : P),
-  count_occ dec (opt_params nets) p = fold_right (fun net acc => (count_occ dec net p + acc)%nat) O nets.
+(* optimizer_params_nodup, FULL strength: for any nets, sharing parameters or not, every
+   distinct parameter of any net is handed to the optimiser exactly once *)
+Theorem optimizer_params_nodup : forall {P : Type} (dec : forall x y : P, {x = y} + {x <> y}) (nets : list (list P)),
+  NoDup (opt_params dec nets) /\
+  (forall p, In p (opt_params dec nets) <-> exists net, In net nets /\ In p net) /\
+  (forall p net, In net nets -> In p net -> count_occ dec (opt_params dec nets) p = 1%nat).
 Proof.
-  intros P dec nets p. unfold opt_params. induction nets as [|n r IH]; [reflexivity|].
-  cbn [concat fold_right]. rewrite count_occ_app, IH. reflexivity.
+  intros P dec nets. unfold opt_params. destruct (dedup_spec dec (concat nets) []) as [N I].
+  assert (M : forall p, In p (dedup dec [] (concat nets)) <-> exists net, In net nets /\ In p net).
+  { intros p. rewrite I, in_concat. cbn [In]. split.
+    - intros [[net [H1 H2]] _]. exists net. split; assumption.
+    - intros [net [H1 H2]]. split; [exists net; split; assumption|tauto]. }
+  split; [exact N|]. split; [exact M|].
+  intros p net H1 H2. apply (proj1 (NoDup_count_occ' dec _) N). apply M. exists net. split; assumption.
 Qed.
 
-(* Full-strength statement (REFUTED on the unchanged tree, findings/F_C16_optimizer.v):
-     forall nets, NoDup (opt_params nets)   given only that each net's own list is NoDup.
-   Restricted theorem: when the nets do not share parameters. *)
-Theorem optimizer_params_nodup_partial : forall {P : Type} (nets : list (list P)),
-  NoDup (concat nets) ->
-  NoDup (opt_params nets) /\ (forall p, In p (opt_params nets) <-> exists net, In net nets /\ In p net).
-Proof. intros P nets H. split; [exact H|]. intros p. apply opt_params_complete. Qed.
+(* order: a parameter that is new when first met keeps its position (first occurrences, in order) *)
+Lemma dedup_head : forall {P : Type} (dec : forall x y : P, {x = y} + {x <> y}) (x : P) (r seen : list P),
+  ~ In x seen -> dedup dec seen (x :: r) = x :: dedup dec (x :: seen) r.
+Proof. intros P dec x r seen H. cbn [dedup]. destruct (in_dec dec x seen); [contradiction|reflexivity]. Qed.
 
-(* the hypothesis in terms of the nets: each net duplicate-free and the nets pairwise disjoint *)
-Lemma nodup_concat : forall {P : Type} (nets : list (list P)),
-  Forall (@NoDup P) nets ->
-  (forall i j a b p, (i < j)%nat -> nth_error nets i = Some a -> nth_error nets j = Some b -> In p a -> ~ In p b) ->
-  NoDup (concat nets).
-Proof.
-  intros P. induction nets as [|n r IH]; intros HF HD; [constructor|].
-  cbn [concat]. inversion HF as [|? ? Hn Hr]; subst.
-  assert (Hrest : NoDup (concat r)).
-  { apply IH; [exact Hr|]. intros i j a b p Hij Ha Hb. apply (HD (S i) (S j) a b p); [lia|exact Ha|exact Hb]. }
-  clear IH HF. induction n as [|x n' IHn]; [exact Hrest|].
-  cbn [app]. inversion Hn as [|? ? Hx Hn']; subst. constructor.
-  - rewrite in_app_iff. intros [H|H]; [contradiction|].
-    apply in_concat in H. destruct H as [b [Hb Hp]]. apply In_nth_error in Hb. destruct Hb as [j Hj].
-    apply (HD O (S j) (x :: n') b x); [lia|reflexivity|exact Hj|left; reflexivity|exact Hp].
-  - apply IHn; [|exact Hn'].
-    intros i j a b p Hij Ha Hb Hin. destruct i as [|i].
-    + cbn [nth_error] in Ha. injection Ha as Ha. subst a.
-      apply (HD O j (x :: n') b p); [exact Hij|reflexivity| |right; exact Hin].
-      destruct j; [lia|exact Hb].
-    + destruct j as [|j]; [lia|]. apply (HD (S i) (S j) a b p); [exact Hij|exact Ha|exact Hb|exact Hin].
-Qed.
-
-Example optimizer_params_nonvacuous : NoDup (opt_params [[1; 2]; [3; 4]]).
-Proof. unfold opt_params. cbn [concat app]. repeat (apply NoDup_cons; [cbn [In]; lia|]). apply NoDup_nil. Qed.
+Example optimizer_params_nonvacuous :
+  opt_params Z.eq_dec [[1; 2]; [1; 2]] = [1; 2] /\ opt_params Z.eq_dec [[1; 2]; [3; 1]; [4]] = [1; 2; 3; 4].
+Proof. split; reflexivity. Qed.
 
 (* ------------------------------------------------------------------------------------- *)
 (* The stop flag and the fit loop                                                         *)
